@@ -376,6 +376,10 @@ def main():
         changed.append('Enums.lean')
     print('extract: {} numeric tables, {} string tables; changed: {}'.format(
         len(tables), len(stables), ','.join(changed) or '-'))
+    # the SSH name tables, variant orders and HASSH field selections (tools/extract_ssh.py)
+    sys.path.insert(0, os.path.dirname(os.path.abspath(__file__)))
+    import extract_ssh
+    extract_ssh.main()
 
 
 if __name__ == '__main__':
